@@ -89,8 +89,14 @@ def check_doc(text, scales=(1, 2, Fraction(3, 2))):
                                 names.add((gj, str(nm)))
                     groups_hit = {g for g, _ in names}
                     same_group = all(any(el is n for n in tables[j].iter()) for el in hits for j, (gj, _) in enumerate(trees) if gj == gi) if False else None
-                    out.append(("C09:anchor-id-collision-of-distinct-names" if len(hits) > 1 else "C09:link-target-missing",
-                                "id %r occurs %d times on the page" % (href[1:], len(hits))))
+                    sig = "C09:link-target-missing"
+                    if len(hits) > 1:
+                        import re as _re
+                        doc_id = lambda nm: _re.sub(r"[^a-zA-Z0-9._-]", "-", nm).strip("-")  # noqa: the documented sanitiser
+                        mine = sorted({nm for g, nm in names if g == gi})
+                        clash = [(a, b_) for a in mine for b_ in mine if a < b_ and doc_id(a) == doc_id(b_) and doc_id(a) == href[1:].split("-", 1)[-1]]
+                        sig = "C09:anchor-id-collision-of-distinct-names" if clash else "C09:anchor-id-collision:names-differ-under-documented-sanitiser"
+                    out.append((sig, "id %r occurs %d times on the page" % (href[1:], len(hits))))
         # independent recipes never share ids
         owner = {}
         for (gi, tree), table in zip(trees, tables):
@@ -108,10 +114,11 @@ def check_doc(text, scales=(1, 2, Fraction(3, 2))):
 
 
 COLLISION_DOC = "# T for 2\n\n    a b = 1 egg, fried\n    a-b = 2 eggs, boiled\n    mix(1/2 of a b, 1/2 of a-b)\n"
+ACCENT_DOC = "# T for 2\n\n    pâte = 1 egg, mixed\n    pâté = 2 livers, cooked\n    crème = 1 cup cream, whipped\n    creme = 2 cups milk, boiled\n    wrap(1/2 of pâte, 1/2 of pâté, 1/2 of crème, 1/2 of creme)\n"
 
 
 def oracle(run):
-    docs = [COLLISION_DOC] + [d.text() for d in c13.gen_cases(run, run.budget(150, 4000))]
+    docs = [COLLISION_DOC, ACCENT_DOC] + [d.text() for d in c13.gen_cases(run, run.budget(150, 4000))]
     for text in docs:
         run.case(("oracle", text), "rg-reference" in text or True, kind="document")
         seen = set()
